@@ -658,6 +658,31 @@ def run_case(p):
                 outcomes[f"opt:{extra[0]}:{r.exit_code}"] += 1
             finally:
                 shutil.rmtree(out, ignore_errors=True)
+        # a document source that cannot be read at all: missing file, a directory, an unreadable name, URLs httpx refuses before sending
+        missing = gen.fresh_dir("nosuch")
+        adir = gen.fresh_dir("adir")
+        os.makedirs(adir)
+        sources = [["--path", str(missing)], ["--path", str(adir)], ["--path", str(missing) + "/x/y.json"], ["--path", "x" * 300 + ".json"], ["--path", str(src) + "/child.json"]] + \
+                  [["--url", u] for u in ("http://[::1", "http://", "http://exa mple.com/x", "ftp://127.0.0.1/x", "nope", "http://127.0.0.1:99999/x", "//x", "http://\udcff/x", "")]
+        try:
+            for source in sources:
+                runner, app, cfg = _cli()
+                out = gen.fresh_dir("cli")
+                try:
+                    r = runner.invoke(app, ["generate", "--meta", "none", "--output-path", str(out), "--config", cfg] + source)
+                    steps += 1
+                    if r.exception is not None and not isinstance(r.exception, SystemExit):
+                        info = gen.crash_info(r.exception)
+                        viol.append({"oracle": "crash", "site": info["where"], "key": f"{info['type']}/unreadable-source", "detail": f"cli {source}: {info['type']}: {info['msg']}"})
+                    elif r.exit_code == 0:
+                        viol.append({"oracle": "exit-status", "site": "cli", "key": "unreadable-source", "detail": f"cli {source}: exit 0 for a source that cannot be read"})
+                    elif out.exists():
+                        viol.append({"oracle": "output-on-rejection", "site": "cli", "key": "unreadable-source", "detail": f"cli {source}: exit {r.exit_code} but {sorted(os.listdir(out))[:4]} was written"})
+                    outcomes[f"source:{source[0]}:{r.exit_code}"] += 1
+                finally:
+                    shutil.rmtree(out, ignore_errors=True)
+        finally:
+            shutil.rmtree(adir, ignore_errors=True)
         for body, ctype, status in ((b"", "application/json", 200), (b"{", "application/json", 200), (b"x: [", "text/yaml", 200), (b"nope", None, 404), (b'{"openapi": "3.1.0"', "application/json", 200),
                                     (b"5", "application/json", 200), (b"null", "application/yaml", 200)):
             url = gen.serve("/c06doc", body, ctype, status)
